@@ -238,3 +238,31 @@ def replay_evict_during_pending_write(inputs, obl):
         return dict(confirmed=False, detail='eviction during a pending write: the latest set is served, accounting consistent')
     finally:
         shutil.rmtree(d, ignore_errors=True)
+
+
+def replay_table_missing_keys(inputs, obl):
+    """a table key that was never set reads as :undefined - a plain unknown key, a key that is a directory of the store (the prefix of a
+    nested key), the empty key - in the same store and after reopening it"""
+    import tempfile, shutil
+    import pandas as pd
+    from klongpy.core import KLONG_UNDEFINED
+    from klongpy.db.sys_fn_kvs import TableStorage
+    from klongpy.db.sys_fn_db import Table
+    d = tempfile.mkdtemp(prefix='pyvc_tmiss_')
+    problems = []
+    try:
+        ts = TableStorage(d)
+        ts.set("eu/prices", Table(pd.DataFrame({"v": [1.0, 2.0]})))
+        for store, where in ((ts, 'same store'), (TableStorage(d), 'reopened store')):
+            for key in ("never-set", "eu", "eu/none"):
+                try:
+                    r = store.get(key)
+                    if r is not KLONG_UNDEFINED:
+                        problems.append(f"{where}: get {key!r} (never set) returned {type(r).__name__}")
+                except Exception as e:
+                    problems.append(f"{where}: after set 'eu/prices', get {key!r} (never set) raised {type(e).__name__}")
+    finally:
+        shutil.rmtree(d, ignore_errors=True)
+    if problems:
+        return dict(confirmed=True, detail='; '.join(problems[:3]))
+    return dict(confirmed=False, detail='never-set table keys (plain, directory of the store, below a directory) read as :undefined')
